@@ -244,7 +244,7 @@ func orEmpty(b []byte) []byte {
 var c18 = &h.Campaign[ByteCase]{
 	Prop: "C18", Sub: "roundtrip",
 	Rule: "rapid: byte strings by class (empty, ASCII, text with leading/inner/trailing White_Space code points, whitespace only, look-alikes that are not White_Space, invalid UTF-8 with and without surrounding whitespace, NULs, random binary, 64 KiB - 4 MiB patterns) put through setec.Client into the real handlers and database; read back by get / get-version / conditional get, after reopening the database, through a Store handle, GetString, the FileCache document (decoded by the harness's own codec), a Store restarted from that cache with an unreachable service, and a FileClient on that cache (non-empty values); non-trivial = invalid UTF-8, surrounding whitespace, or >= 64 KiB; distinct by (class, bytes)",
-	Quick: 500, Thorough: 40000,
+	Quick: 500, Thorough: 60000,
 	Gen:   genBytes,
 	Run:   runC18,
 	Key:   func(c ByteCase) any { return fmt.Sprintf("%s/%d/%x", c.Class, c.Big, c.Val) },
@@ -381,7 +381,7 @@ func runC18CLI(t *testing.T, c CLICase) (*h.Violation, h.Info) {
 var c18cli = &h.Campaign[CLICase]{
 	Prop: "C18", Sub: "cli",
 	Rule: "rapid: the setec binary built from /repo runs `put` against an in-process server on a loopback listener for every combination of --verbatim, --trim-space, --empty-ok and source (--from-file or a pipe on stdin) with inputs from the same byte classes (up to 1 MiB); an independent policy (own White_Space table, own UTF-8 validator) predicts sent-verbatim / sent-trimmed / refused; refused => non-zero exit and zero requests at the server, sent => stored bytes equal the prediction; non-trivial = invalid UTF-8, surrounding whitespace or >= 64 KiB input; distinct by scenario",
-	Quick: 200, Thorough: 12000,
+	Quick: 200, Thorough: 20000,
 	Gen: func(rt *rapid.T) CLICase {
 		c := CLICase{Input: genBytesOf(rt, cliClasses), Verbatim: rapid.Bool().Draw(rt, "verbatim"), Trim: rapid.Bool().Draw(rt, "trim"), EmptyOK: rapid.Bool().Draw(rt, "emptyok"), FromFile: rapid.Bool().Draw(rt, "fromfile")}
 		if c.Input.Big > 1<<20 {
